@@ -28,6 +28,7 @@ Definition ref_item (it : item) : list xevent :=
   | IStart n attrs _ void => EStart n (map ref_attr attrs) :: (if void then [EEnd n] else [])
   | IEnd n _ => [EEnd n]
   | IPI t _ _ => [EPI t]
+  | ITag true t _ _ _ => [EPI t]      (* a processing instruction with free-form content *)
   | _ => []
   end.
 Definition ref_events (l : list item) : list xevent := concat (map ref_item l).
@@ -68,7 +69,7 @@ Fixpoint no_crlf (l : list Z) : Prop :=
 Definition item_no_crlf (it : item) : Prop :=
   match it with
   | IStart _ attrs _ _ => Forall (fun a => no_crlf (a_val a)) attrs
-  | ITag _ _ _ _ _ => False     (* the general opener is not an XML construct: no reference semantics *)
+  | ITag pi _ _ _ k => pi = true /\ k = TStartTagClosePI   (* the general opener is XML only as a processing instruction *)
   | _ => True
   end.
 
@@ -107,11 +108,16 @@ Lemma tok_events_pi_attrs attrs : forall rest,
   tok_events None (map expect_attr attrs ++ rest) = tok_events None rest.
 Proof. induction attrs as [|a attrs IH]; intros rest; cbn [map app]; [reflexivity|]. unfold expect_attr at 1. cbn [tok_events]. apply IH. Qed.
 
+Lemma tok_events_pi_gattrs gs : forall rest,
+  tok_events None (map expect_gattr gs ++ rest) = tok_events None rest.
+Proof. induction gs as [|a gs IH]; intros rest; cbn [map app]; [reflexivity|]. unfold expect_gattr at 1. cbn [tok_events]. apply IH. Qed.
+
 Lemma tok_events_item it rest : item_no_crlf it ->
   tok_events None (expect_item it ++ rest) = ref_item it ++ tok_events None rest.
 Proof.
   intros H. destruct it as [t|b|b|ps|n attrs ws|n attrs ws void|n ws|pi n gs ws k]; cbn [expect_item ref_item app tok_events olist item_no_crlf] in *;
     try reflexivity; try contradiction.
+  3:{ destruct H as (-> & ->). cbn [tok_events olist]. rewrite <- app_assoc. rewrite tok_events_pi_gattrs. reflexivity. }
   - rewrite <- app_assoc. rewrite tok_events_pi_attrs. reflexivity.
   - rewrite <- app_assoc. rewrite tok_events_attrs by exact H. cbn [app]. destruct void; reflexivity.
 Qed.
